@@ -1,16 +1,10 @@
 #!/bin/bash
-# Re-evaluate every kept seed (seeded/<name>/) and the wave-3 candidates against the current checks (quick tier only).
+# Re-evaluate every kept seed (seeded/<name>/) against the current checks (quick tier only).
+# Seeds whose defect is the subject of another property's statement are run against that check too.
 cd /verif
+declare -A EXTRA=( [C13c]="C13,C14" [C15c]="C15,C11" [C06d]="C06,C03" [C14d]="C14,C02" )
 for d in seeded/*/; do
   name=$(basename $d); pid=$(python3 -c "import json;print(json.load(open('$d/meta.json'))['property'])")
-  extra=""
-  echo "=== $name"
-  VERIF_NO_THOROUGH=1 timeout 2400 python3 tools/seedeval.py $d $pid $name $extra 2>&1 | grep -E "verdict" | cut -c1-200
-done
-for id in C01 C02 C03 C04 C05 C06 C07 C08 C09 C10 C11 C12 C13 C14 C15 C16 C17 C18 C19 C20; do
-  extra=""
-  [ $id = C13 ] && extra="--checks=C13,C14"
-  [ $id = C15 ] && extra="--checks=C15,C11"
-  echo "=== ${id}c"
-  VERIF_NO_THOROUGH=1 timeout 2400 python3 tools/seedeval.py /tmp/seedout3/$id $id ${id}c $extra 2>&1 | grep -E "verdict" | cut -c1-200
+  extra=""; [ -n "${EXTRA[$name]}" ] && extra="--checks=${EXTRA[$name]}"
+  echo "=== $name $(VERIF_NO_THOROUGH=1 timeout 2400 python3 tools/seedeval.py $d $pid $name $extra 2>&1 | grep -E 'verdict' | cut -c1-120)"
 done
